@@ -45,6 +45,52 @@ def d1_bits(ctx):
               "so fronts/rises/falls on a line read through the reader report wrong polarities and spurious edges", key="signed")
 
 
+def _delegates_to_fronts(ctx, q, want_sign):
+    """rises/falls written as a filter over fronts(): (indices, polarity) = fronts(x, axis, step); keep polarity > 0 / < 0.
+    fronts thresholds |diff| >= step, so the step it receives must be a magnitude: falls (whose step is negative by convention)
+    has to negate it."""
+    repo = ctx.repo
+    fi = repo.fn(q)
+    du = DefUse(fi.node)
+    fr = repo.fn("ibldsp.utils.fronts")
+    calls = [c for c in find(fi.node, ast.Call, nested=False) if repo.resolve_call(fi, c) == "ibldsp.utils.fronts"]
+    if not calls:
+        return False
+    c = calls[0]
+    b = bind(c, fr)
+    name = q.split(".")[-1]
+    ctx.check(loc_name(b.bound.get("axis")) == "axis", fi, c, c, "edges are searched along the requested axis", f"{name} does not pass its axis to fronts", key=f"{name}:axis")
+    st = b.bound.get("step")
+    dflt = fi.defaults().get("step")
+    negative_convention = const_value(dflt)[0] and const_value(dflt)[1] < 0
+    # what reaches fronts as `step` on the non-analog path
+    stv = st
+    neg = False
+    while isinstance(stv, ast.UnaryOp) and isinstance(stv.op, ast.USub):
+        neg = not neg
+        stv = stv.operand
+    is_abs = isinstance(stv, ast.Call) and call_name(stv) in ("abs", "absolute")
+    passes_param = loc_name(stv) == "step" and any(d.kind == "param" for d in du.reaching("step", c))
+    if negative_convention:
+        ok = (passes_param and neg) or is_abs
+        ctx.check(ok, fi, c, c, f"{name} hands fronts the magnitude of its (negative) step",
+                  f"{name}'s step is negative by convention (default {src(dflt)}) and is passed to fronts unchanged: fronts tests |diff| >= step, which is always true for a negative step - "
+                  f"every downward transition is returned, whatever its size", key=f"{name}:step-magnitude")
+    else:
+        ctx.check(passes_param and not neg or is_abs, fi, c, c, f"{name} hands fronts its step", f"{name} does not pass its step to fronts as a magnitude", key=f"{name}:step-magnitude")
+    # polarity filter
+    rets = returns_of(fi.node)
+    okp = False
+    for r in rets:
+        cmps = find(r.value, ast.Compare) if r.value is not None else []
+        for cm in cmps:
+            if const_value(cm.comparators[0]) == (True, 0) and isinstance(cm.ops[0], ast.Gt if want_sign > 0 else ast.Lt):
+                okp = True
+    ctx.check(okp, fi, rets[-1] if rets else fi.node, rets[-1] if rets else "return", f"{name} keeps the fronts of {'positive' if want_sign > 0 else 'negative'} polarity",
+              f"{name} does not keep exactly the {'positive' if want_sign > 0 else 'negative'}-polarity fronts", key=f"{name}:polarity")
+    return True
+
+
 def _edge_fn(ctx, q, need_abs):
     repo = ctx.repo
     fi = repo.fn(q)
@@ -103,8 +149,12 @@ def d2_edges(ctx):
     for r in returns_of(fi.node):
         if isinstance(r.value, ast.Tuple):
             ctx.check(len(r.value.elts) == 2 and loc_name(r.value.elts[1]) == "sign", fi, r, r, "returns (indices, polarity)", "return order changed", key="ret:" + norm(r.value)[:30])
-    _edge_fn(ctx, "ibldsp.utils.rises", False)
     fr = repo.fn("ibldsp.utils.rises")
+    if _delegates_to_fronts(ctx, "ibldsp.utils.rises", +1):
+        if _delegates_to_fronts(ctx, "ibldsp.utils.falls", -1):
+            return
+    else:
+        _edge_fn(ctx, "ibldsp.utils.rises", False)
     # analog conversion
     for st in walk_function(fr.node):
         if isinstance(st, ast.Assign) and loc_name(st.targets[0]) == "x":
